@@ -354,7 +354,7 @@ Proof.
   induction lsegs as [|[cls st] t IH]; intros s col row; cbn [wrap_loop wrap_places].
   - reflexivity.
   - destruct (row >=? rows); [reflexivity|].
-    set (chars := characters cls). set (total := zsum (map cwidth chars)).
+    set (chars := map (measured measure remeasure) (characters cls)). set (total := zsum (map wd chars)).
     unfold wrap_start.
     set (start := if total >? cols then (col, row) else if total + col >? cols then (0, row + 1) else (col, row)).
     destruct start as [c0 r0] eqn:Es. cbn [fst snd].
@@ -848,6 +848,54 @@ Proof.
       * right. split; [lia|]. split; [lia|]. intros Hn. specialize (H3 Hn). split; [lia|right; lia].
 Qed.
 
+(* rows only grow *)
+Lemma gen_row_ge cols items : forall col row p,
+  In p (fst (gen_places cols items col row)) -> row <= snd (fst p).
+Proof.
+  induction items as [|it t IH]; intros col row p; cbn [gen_places]; [intros []|].
+  destruct (isbreak it). { intros H; apply IH in H; lia. }
+  destruct (stop row); [intros []|].
+  destruct (fit cols col row (width it)) as [[c1 r1]|] eqn:EF; [|apply IH].
+  apply fit_some in EF as [_ EF]. cbn [fst snd]. intros [<-|Hin]; [cbn [fst snd]; lia|].
+  destruct (c1 + width it >=? cols); apply IH in Hin; lia.
+Qed.
+
+Lemma gen_end_row_ge cols items : forall col row, row <= snd (snd (gen_places cols items col row)).
+Proof.
+  induction items as [|it t IH]; intros col row; cbn [gen_places]; [cbn [snd]; lia|].
+  destruct (isbreak it). { specialize (IH 0 (row + 1)); lia. }
+  destruct (stop row); [cbn [snd]; lia|].
+  destruct (fit cols col row (width it)) as [[c1 r1]|] eqn:EF; [|apply IH].
+  apply fit_some in EF as [_ EF]. cbn [fst snd].
+  destruct (c1 + width it >=? cols); [specialize (IH 0 (r1 + 1))|specialize (IH (c1 + width it) r1)]; lia.
+Qed.
+
+Lemma gen_row_le_end cols items : forall col row p,
+  In p (fst (gen_places cols items col row)) -> snd (fst p) <= snd (snd (gen_places cols items col row)).
+Proof.
+  induction items as [|it t IH]; intros col row p; cbn [gen_places]; [intros []|].
+  destruct (isbreak it); [apply IH|]. destruct (stop row); [intros []|].
+  destruct (fit cols col row (width it)) as [[c1 r1]|] eqn:EF; [|apply IH].
+  cbn [fst snd]. intros [<-|Hin].
+  - cbn [fst snd]. destruct (c1 + width it >=? cols);
+      [pose proof (gen_end_row_ge cols t 0 (r1 + 1))|pose proof (gen_end_row_ge cols t (c1 + width it) r1)]; lia.
+  - destruct (c1 + width it >=? cols); apply IH; exact Hin.
+Qed.
+
+(* a line break starts a new row: every cluster after it lies strictly below the row in
+   which the text before it ended (and that text's clusters lie in or above that row) *)
+Lemma gen_break_new_row cols a brk b : isbreak brk = true -> forall col row p,
+  In p (fst (gen_places cols (a ++ brk :: b) col row)) ->
+  In p (fst (gen_places cols a col row)) \/ snd (snd (gen_places cols a col row)) < snd (fst p).
+Proof.
+  intros Hb. induction a as [|it t IH]; intros col row p; cbn [app gen_places].
+  - rewrite Hb. intros H; right. apply gen_row_ge in H. cbn [snd]. lia.
+  - destruct (isbreak it); [apply IH|]. destruct (stop row); [intros []|].
+    destruct (fit cols col row (width it)) as [[c1 r1]|] eqn:EF; [|apply IH].
+    cbn [fst snd]. intros [<-|Hin]; [left; left; reflexivity|].
+    destruct (c1 + width it >=? cols); apply IH in Hin as [Hin|Hin]; auto; left; right; exact Hin.
+Qed.
+
 End Gen.
 
 (* ------------------------------------------------------------------ instances *)
@@ -982,6 +1030,17 @@ Proof.
     lia.
 Qed.
 
+Lemma print_line_break cols rows a nl b col row p :
+  item_nl nl = true ->
+  In p (fst (print_places measure remeasure cols rows (a ++ nl :: b) col row)) ->
+  let ra := print_places measure remeasure cols rows a col row in
+  (In p (fst ra) /\ snd (fst p) <= snd (snd ra)) \/ snd (snd ra) < snd (fst p).
+Proof.
+  intros Hn Hin ra. unfold ra. rewrite print_places_gen in *.
+  apply (gen_break_new_row _ item_nl item_width item_cell _ cols a nl b Hn) in Hin as [Hin|Hin]; [left|right; exact Hin].
+  split; [exact Hin|]. apply gen_row_le_end; exact Hin.
+Qed.
+
 (* ---- Println / PrintTruncate: one row, left to right ---- *)
 
 Lemma println_layout cols items : forall col row,
@@ -1038,8 +1097,8 @@ Lemma wrap_places_path cols rows lsegs : forall col row,
 Proof.
   induction lsegs as [|[cls st] t IH]; intros col row; cbn [wrap_places]; [apply reach_refl|].
   destruct (row >=? rows); [apply reach_refl|]. cbn [fst snd].
-  pose proof (wrap_start_reach cols (zsum (map cwidth (characters cls))) col row) as Hr.
-  destruct (wrap_start cols (zsum (map cwidth (characters cls))) col row) as [c0 r0]. cbn [fst snd].
+  pose proof (wrap_start_reach cols (zsum (map wd (map (measured measure remeasure) (characters cls)))) col row) as Hr.
+  destruct (wrap_start cols (zsum (map wd (map (measured measure remeasure) (characters cls)))) col row) as [c0 r0]. cbn [fst snd].
   eapply path_ok_app; [|apply IH].
   eapply path_ok_reach; [exact Hr|].
   rewrite wrap_chars_places_gen. rewrite <- surjective_pairing. apply gen_path. reflexivity.
@@ -1068,3 +1127,224 @@ Qed.
 
 Lemma characters_app a b : characters (a ++ b) = characters a ++ characters b.
 Proof. unfold characters; apply flat_map_app. Qed.
+
+(* ------------------------------------------------------------------ the observation predicate *)
+
+Lemma zlist_eqb_eq a b : zlist_eqb a b = true -> a = b.
+Proof.
+  revert b; induction a as [|x a IH]; intros [|y b]; cbn; try discriminate; [reflexivity|].
+  intros H; apply andb_prop in H as [H1 H2]. f_equal; [lia|apply IH; exact H2].
+Qed.
+
+Lemma cell_eqb_eq a b : cell_eqb a b = true -> a = b.
+Proof.
+  unfold cell_eqb; intros H. apply andb_prop in H as [H H3]. apply andb_prop in H as [H1 H2].
+  destruct a as [g1 w1 s1], b as [g2 w2 s2]; cbn [cg cw cst] in *. apply zlist_eqb_eq in H1. f_equal; [exact H1|lia|lia].
+Qed.
+
+Lemma cell_eqb_refl a : cell_eqb a a = true.
+Proof.
+  unfold cell_eqb. rewrite !Z.eqb_refl, !andb_true_r.
+  induction (cg a) as [|x l IH]; cbn; [reflexivity|]. rewrite Z.eqb_refl; exact IH.
+Qed.
+
+Lemma frame_eqb_eq a b : frame_eqb a b = true -> a = b.
+Proof. unfold frame_eqb; destruct a as [a1 a2 a3 a4], b as [b1 b2 b3 b4]; cbn [fcol frow fw fh]; intros H. f_equal; lia. Qed.
+
+Lemma list_eqb_eq {A} (eqb : A -> A -> bool) (H : forall a b, eqb a b = true -> a = b) l1 l2 :
+  list_eqb eqb l1 l2 = true -> l1 = l2.
+Proof.
+  revert l2; induction l1 as [|x l1 IH]; intros [|y l2]; cbn; try discriminate; [reflexivity|].
+  intros E; apply andb_prop in E as [E1 E2]. f_equal; [apply H; exact E1|apply IH; exact E2].
+Qed.
+
+Lemma diff_eqb_eq a b : diff_eqb a b = true -> a = b.
+Proof.
+  apply list_eqb_eq. intros [[x1 y1] c1] [[x2 y2] c2]; cbn [fst snd]. intros H.
+  apply andb_prop in H as [H H3]. apply andb_prop in H as [H1 H2]. apply cell_eqb_eq in H3.
+  f_equal; [f_equal; lia|exact H3].
+Qed.
+
+Lemma window_of_frames_chain w : window_of_frames (wchain w) = Some w.
+Proof.
+  induction w as [f|f p IH]; cbn [wchain window_of_frames]; [reflexivity|].
+  rewrite IH. destruct (wchain p) eqn:E; [destruct p; discriminate|reflexivity].
+Qed.
+
+(* positions paired with elements *)
+Lemma combine_seq_in {A} (l : list A) : forall k i x,
+  In (i, x) (combine (map Z.of_nat (seq k (length l))) l) ->
+  exists j, i = Z.of_nat (k + j) /\ nth_error l j = Some x.
+Proof.
+  induction l as [|h t IH]; intros k i x; cbn [length seq map combine]; [intros []|].
+  intros [E|Hin].
+  - injection E as <- <-. exists O; split; [f_equal; lia|reflexivity].
+  - apply IH in Hin as (j & -> & Hj). exists (S j); split; [f_equal; lia|exact Hj].
+Qed.
+
+Lemma combine_zrange_in {A} (l : list A) i x :
+  In (i, x) (combine (zrange (zlen l)) l) -> zget l i = Some x.
+Proof.
+  unfold zrange, zlen. rewrite Nat2Z.id. intros H. apply combine_seq_in in H as (j & -> & Hj).
+  unfold zget. replace (Z.of_nat (0 + j) <? 0) with false by lia. rewrite Nat2Z.id. exact Hj.
+Qed.
+
+Lemma screen_diff_in bg s x y c :
+  In (x, y, c) (screen_diff bg s) -> sget s x y = Some c /\ cell_eqb c bg = false.
+Proof.
+  unfold screen_diff; rewrite in_flat_map. intros ([y' line] & Hl & Hr); cbn [fst snd] in Hr.
+  apply combine_zrange_in in Hl. unfold row_diff in Hr; rewrite in_flat_map in Hr.
+  destruct Hr as ([x' c'] & Hc & Hd); cbn [fst snd] in Hd. apply combine_zrange_in in Hc.
+  destruct (cell_eqb c' bg) eqn:E; [destruct Hd|]. destruct Hd as [Hd|[]]. injection Hd as <- <- <-.
+  unfold sget; rewrite Hl. split; [exact Hc|exact E].
+Qed.
+
+Lemma nth_error_repeat {A} (x : A) n k y : nth_error (repeat x n) k = Some y -> y = x.
+Proof. intros H; apply nth_error_In in H; apply repeat_spec in H; exact H. Qed.
+
+Lemma sget_bg_screen bg cols rows x y c : sget (bg_screen bg cols rows) x y = Some c -> c = bg.
+Proof.
+  unfold sget, bg_screen; cbn [sbuf]. unfold zget, zrepeat.
+  destruct (y <? 0); [discriminate|].
+  destruct (nth_error (repeat (repeat bg (Z.to_nat cols)) (Z.to_nat rows)) (Z.to_nat y)) as [line|] eqn:E; [|discriminate].
+  apply nth_error_repeat in E; subst line. destruct (x <? 0); [discriminate|]. apply nth_error_repeat.
+Qed.
+
+Lemma combine_seq_in_conv {A} (l : list A) : forall k j x,
+  nth_error l j = Some x -> In (Z.of_nat (k + j), x) (combine (map Z.of_nat (seq k (length l))) l).
+Proof.
+  induction l as [|h t IH]; intros k j x; destruct j as [|j]; cbn [nth_error length seq map combine]; try discriminate.
+  - intros H; injection H as <-. left. f_equal. f_equal. lia.
+  - intros H. right. replace (k + S j)%nat with (S k + j)%nat by lia. apply IH; exact H.
+Qed.
+
+Lemma combine_zrange_in_conv {A} (l : list A) i x :
+  zget l i = Some x -> In (i, x) (combine (zrange (zlen l)) l).
+Proof.
+  unfold zget. destruct (i <? 0) eqn:E; [discriminate|]. intros H.
+  unfold zrange, zlen. rewrite Nat2Z.id.
+  replace i with (Z.of_nat (0 + Z.to_nat i)) at 1 by lia. apply combine_seq_in_conv; exact H.
+Qed.
+
+Lemma screen_diff_in_conv bg s x y c :
+  sget s x y = Some c -> cell_eqb c bg = false -> In (x, y, c) (screen_diff bg s).
+Proof.
+  unfold sget. destruct (zget (sbuf s) y) as [line|] eqn:El; [|discriminate]. intros Hc Hne.
+  unfold screen_diff; rewrite in_flat_map. exists (y, line); split; [apply combine_zrange_in_conv; exact El|].
+  cbn [fst snd]. unfold row_diff; rewrite in_flat_map. exists (x, c); split; [apply combine_zrange_in_conv; exact Hc|].
+  cbn [fst snd]. rewrite Hne. left; reflexivity.
+Qed.
+
+Lemma placement_eqb_refl p : placement_eqb p p = true.
+Proof. unfold placement_eqb. rewrite !Z.eqb_refl, cell_eqb_refl. reflexivity. Qed.
+
+(* one cell of a background screen replaced: the changed cells are exactly that one *)
+Lemma single_change_diff w bg cols rows s' col row (f : cell -> cell) :
+  let s := bg_screen bg cols rows in
+  let X := fst (origin w) + col in
+  let Y := snd (origin w) + row in
+  (if visible w s X Y then updated_at s s' X Y f else s' = s) ->
+  diff_same (screen_diff bg s') (expected_single w s bg col row (f bg)) = true.
+Proof.
+  intros s X Y H. unfold expected_single. destruct (origin w) as [ox oy] eqn:Eo; cbn [fst snd] in X, Y. fold X Y.
+  assert (Hbg : forall x y c, sget s x y = Some c -> c = bg) by (intros x y c; apply sget_bg_screen).
+  unfold diff_same. destruct (visible w s X Y) eqn:EV.
+  - destruct H as (_ & _ & (old & Ho & Hn) & Hrest). apply Hbg in Ho; subst old.
+    assert (Hall : forall x y c, In (x, y, c) (screen_diff bg s') -> x = X /\ y = Y /\ c = f bg /\ cell_eqb (f bg) bg = false).
+    { intros x y c Hin. apply screen_diff_in in Hin as [Hg Hne].
+      destruct (Z.eq_dec x X) as [->|Hx]; [destruct (Z.eq_dec y Y) as [->|Hy]|].
+      - rewrite Hn in Hg; injection Hg as <-. auto.
+      - rewrite Hrest in Hg by auto. apply Hbg in Hg; subst c. rewrite cell_eqb_refl in Hne; discriminate.
+      - rewrite Hrest in Hg by auto. apply Hbg in Hg; subst c. rewrite cell_eqb_refl in Hne; discriminate. }
+    destruct (cell_eqb (f bg) bg) eqn:EC; cbn [andb negb].
+    + destruct (screen_diff bg s') as [|[[x y] c] t] eqn:ED; [reflexivity|].
+      destruct (Hall x y c (or_introl eq_refl)) as (_ & _ & _ & Hf); discriminate.
+    + apply andb_true_intro; split.
+      * apply forallb_forall. intros [[x y] c] Hin. destruct (Hall x y c Hin) as (-> & -> & -> & _).
+        cbn [existsb]. rewrite placement_eqb_refl; reflexivity.
+      * cbn [forallb]. rewrite andb_true_r. apply existsb_exists. exists (X, Y, f bg); split; [|apply placement_eqb_refl].
+        apply screen_diff_in_conv; assumption.
+  - subst s'. cbn [andb].
+    destruct (screen_diff bg s) as [|[[x y] c] t] eqn:ED; [reflexivity|].
+    assert (Hin : In (x, y, c) (screen_diff bg s)) by (rewrite ED; left; reflexivity).
+    apply screen_diff_in in Hin as [Hg Hne]. apply Hbg in Hg; subst c. rewrite cell_eqb_refl in Hne; discriminate.
+Qed.
+
+(* frames made by the steps of a window specification, outermost first *)
+Definition build_step (w : window) (st : bool * (Z * Z * Z * Z)) : window :=
+  let '(via_new, (a, b, c, d)) := st in
+  if via_new then win_new w a b c d else Child (mkFrame a b c d) w.
+
+Fixpoint frames_from (w : window) (steps : list (bool * (Z * Z * Z * Z))) : list frame :=
+  match steps with
+  | [] => []
+  | st :: t => wframe (build_step w st) :: frames_from (build_step w st) t
+  end.
+
+Lemma build_chain steps : forall w,
+  rev (wchain (fold_left build_step steps w)) = rev (wchain w) ++ frames_from w steps.
+Proof.
+  induction steps as [|st t IH]; intros w; cbn [fold_left frames_from]; [now rewrite app_nil_r|].
+  rewrite IH. assert (E : wchain (build_step w st) = wframe (build_step w st) :: wchain w).
+  { destruct st as [[] [[[a b] c] d]]; reflexivity. }
+  rewrite E; cbn [rev]. rewrite <- app_assoc. reflexivity.
+Qed.
+
+Lemma frames_from_edges steps : forall w,
+  new_edges_ok steps (wframe w :: frames_from w steps) = true.
+Proof.
+  induction steps as [|[via [[[a b] c] d]] t IH]; intros w; cbn [frames_from new_edges_ok]; [reflexivity|].
+  rewrite IH, andb_true_r. destruct via; cbn [build_step]; [|reflexivity].
+  unfold win_new, win_size; cbn [wframe fcol frow fw fh].
+  pose proof (clamp_size_edge c a (fw (wframe w))). pose proof (clamp_size_edge d b (fh (wframe w))). lia.
+Qed.
+
+Lemma build_window_steps s ws :
+  build_window s ws = fold_left build_step (snd ws) (match fst ws with None => root_window s | Some f => Root f end).
+Proof. reflexivity. Qed.
+
+Lemma build_window_new_edges s ws :
+  new_edges_ok (snd ws) (rev (wchain (build_window s ws))) = true.
+Proof.
+  rewrite build_window_steps, build_chain.
+  destruct (fst ws) as [f|]; cbn [wchain rev app root_window]; apply (frames_from_edges (snd ws) (Root _)).
+Qed.
+
+(* whatever the model outputs satisfies the core of the observation predicate: a case on
+   which the implementation agrees with the model cannot violate it *)
+Lemma agrees_core_holds c :
+  0 <= c_cols c -> 0 <= c_rows c -> case_agrees c = true -> case_core_holds c = true.
+Proof.
+  intros Hc Hr. unfold case_agrees, case_core_holds.
+  set (s := bg_screen (c_bg c) (c_cols c) (c_rows c)).
+  set (w := build_window s (c_win c)).
+  assert (HWF : WF s) by (apply bg_screen_WF; assumption).
+  intros H. apply andb_prop in H as [H Hrun]. apply andb_prop in H as [H Horg]. apply andb_prop in H as [_ Hfr].
+  apply (list_eqb_eq frame_eqb frame_eqb_eq) in Hfr. rewrite <- Hfr, window_of_frames_chain.
+  unfold run_op in Hrun.
+  destruct (run_op_clipped (tab_measure (c_tab c)) (c_remeasure c) (tab_trailing (c_tab c)) w s (c_op c) HWF)
+    as (s' & ret & E & Hwf' & Hd & Hout).
+  rewrite E in Hrun. apply andb_prop in Hrun as [Hrun _]. apply andb_prop in Hrun as [Ho Hdiff].
+  apply diff_eqb_eq in Hdiff. rewrite Ho, <- Hdiff. cbn [andb].
+  pose proof (build_window_new_edges s (c_win c)) as Hnew. fold w in Hnew. rewrite Hnew. cbn [andb].
+  assert (Hvis : forall x y cl, In (x, y, cl) (screen_diff (c_bg c) s') ->
+                 visible w s x y = true /\ sget s' x y = Some cl /\ sget s x y <> Some cl).
+  { intros x y cl Hin. apply screen_diff_in in Hin as [Hg Hne].
+    assert (Hs : sget s x y <> Some cl).
+    { intros Hs. apply sget_bg_screen in Hs. subst cl. rewrite cell_eqb_refl in Hne; discriminate. }
+    split; [|split; assumption].
+    destruct (visible w s x y) eqn:EV; [reflexivity|]. rewrite (Hout x y EV) in Hg. contradiction. }
+  apply andb_true_intro; split; [apply andb_true_intro; split|].
+  - apply forallb_forall. intros [[x y] cl] Hin; cbn [fst snd]. apply (Hvis x y cl Hin).
+  - destruct (c_op c) as [col row cl|col row st| | | | | |] eqn:Eop; try reflexivity; cbn [run_op_with] in E.
+    + destruct (setcell_clip w s col row cl HWF) as (s1 & E1 & H1). rewrite E1 in E; injection E as <- _.
+      apply (single_change_diff w (c_bg c) (c_cols c) (c_rows c) s1 col row (fun _ => cl) H1).
+    + destruct (setstyle_clip w s col row st HWF) as (s1 & E1 & H1). rewrite E1 in E; injection E as <- _.
+      apply (single_change_diff w (c_bg c) (c_cols c) (c_rows c) s1 col row (fun old => mkCell (cg old) (cw old) st) H1).
+  - destruct (is_text_op (c_op c) && built_by_constructors (c_win c)) eqn:ET; [|reflexivity].
+    apply andb_prop in ET as [ET EB].
+    apply forallb_forall. intros [[x y] cl] Hin; cbn [fst snd]. apply forallb_forall. intros i Hi.
+    apply In_zrange in Hi. destruct (Hvis x y cl Hin) as (_ & Hg & Hs).
+    apply (text_no_overhang (tab_measure (c_tab c)) (c_remeasure c) (tab_trailing (c_tab c)) w s (c_op c) s' ret x y cl HWF); auto.
+    apply build_window_edges; exact EB.
+Qed.
